@@ -74,11 +74,11 @@ Qed.
 (** * SlurmScriptAdapter.get_header *)
 Lemma deq_slurm_resources : forall bd st,
   deq (d_set (s "comment") (VStr (replace [10] (s " ") (st_desc st)))
-        (d_set (s "job-name") (VStr (replace (s " ") (s "_") (st_name st)))
+        (d_set (s "job-name") (VStr (subst_ws (st_name st)))
            (d_update (d_update d_empty bd) (truthy_items (run_items st)))))
       (slurm_resources bd st).
 Proof.
-  intros bd st k. unfold d_set, d_update, d_empty, slurm_resources, under, oneline. rewrite app_nil_r.
+  intros bd st k. unfold d_set, d_update, d_empty, slurm_resources, slurm_job_name, oneline. rewrite app_nil_r.
   cbn [lookup]. destruct (str_eqb k (s "comment")) eqn:C; destruct (str_eqb k (s "job-name")) eqn:J; auto.
   apply str_eqb_eq in C. apply str_eqb_eq in J. subst. discriminate J.
 Qed.
